@@ -423,7 +423,9 @@ def install_wrappers(dbdir: str, sync) -> None:
         if not under(database):
             return o_connect(database, *a, **k)
         k.setdefault("factory", Conn)
-        return sync("connect", "", lambda: o_connect(database, *a, **k), lambda r: "ok")
+        con = sync("connect", "", lambda: o_connect(database, *a, **k), lambda r: "ok")
+        sync.conn = con   # the connection of this context: its transaction state is reported with every operation
+        return con
 
     sqlite3.connect = connect
 
@@ -452,6 +454,16 @@ def child_main(idx: int, dbdir: str, order: list, cursor: bool, mode: str, rfd: 
         if not b:
             os._exit(0)  # parent gone
 
+    def cur_tx():
+        """Connection.in_transaction of the context's connection: "y" / "n" ("" = no open connection)."""
+        con = getattr(sync, "conn", None)
+        if con is None:
+            return ""
+        try:
+            return "y" if con.in_transaction else "n"
+        except Exception:
+            return ""
+
     def sync(cls, detail, fn, summarise, inner_only=False):
         if st["phase"] == "setup":
             return fn()
@@ -476,15 +488,15 @@ def child_main(idx: int, dbdir: str, order: list, cursor: bool, mode: str, rfd: 
         except BaseException as e:
             res = type(e).__name__ + ": " + str(e)[:80]
             if mode == "control":
-                send({"ev": "done", "cls": cls, "result": res, "exc": True})
+                send({"ev": "done", "cls": cls, "result": res, "exc": True, "tx": cur_tx()})
             else:
-                log.append([cls, detail, t0, time.monotonic(), res, True])
+                log.append([cls, detail, t0, time.monotonic(), res, True, cur_tx()])
             raise
         res = summarise(r)
         if mode == "control":
-            send({"ev": "done", "cls": cls, "result": res, "exc": False})
+            send({"ev": "done", "cls": cls, "result": res, "exc": False, "tx": cur_tx()})
         else:
-            log.append([cls, detail, t0, time.monotonic(), res, False])
+            log.append([cls, detail, t0, time.monotonic(), res, False, cur_tx()])
         return r
 
     install_wrappers(dbdir, sync)
@@ -522,9 +534,11 @@ def child_main(idx: int, dbdir: str, order: list, cursor: bool, mode: str, rfd: 
     except BaseException as e:
         exc = type(e).__name__ + ": " + str(e)[:120]
     if ctx is not None:
-        # the context object exists: it is closed - when the schedule says so
+        # the context object exists: it is closed - when the schedule says so.  The page work is over, no
+        # library call is active: the transaction state of the connection at this idle point travels with the close
+        idle_tx = cur_tx()
         if mode == "control":
-            send({"ev": "want", "cls": "close", "detail": ""})
+            send({"ev": "want", "cls": "close", "detail": "", "tx": idle_tx})
             wait_grant()
         elif life[0] == "delay":
             time.sleep(life[1])
@@ -541,9 +555,9 @@ def child_main(idx: int, dbdir: str, order: list, cursor: bool, mode: str, rfd: 
             exc = exc or ("close_db_conn: " + cres)
         st["phase"] = "setup"
         if mode == "control":
-            send({"ev": "done", "cls": "close", "result": cres, "exc": cexc})
+            send({"ev": "done", "cls": "close", "result": cres, "exc": cexc, "tx": idle_tx})
         else:
-            log.append(["close", "", t0, time.monotonic(), cres, cexc])
+            log.append(["close", "", t0, time.monotonic(), cres, cexc, idle_tx])
     send({"ev": "finished", "results": results, "exc": exc, "log": log})
     wait_grant()  # the process stays until everybody is done
     os._exit(0)
@@ -684,9 +698,19 @@ def jm_of_results(results) -> str:
     return jm
 
 
+def tx_of_results(results) -> str:
+    """Transaction state reported with the last operation of a step ("" = not observed)."""
+    for r in reversed(results):
+        if r and r.get("tx"):
+            return r["tx"]
+    return ""
+
+
 def step(kids, c: Child, tracked, trace, sched_label=None, timeout=9.0):
     """Let child c perform one model-level step (coalescing operations of one class)."""
     cls = c.want["cls"]
+    if cls == "write":
+        timeout = max(timeout, 25.0)   # a writer may sit in SQLite's busy handler for the whole busy timeout (5 s)
     results = []
     while True:
         grant(c)
@@ -701,6 +725,7 @@ def step(kids, c: Child, tracked, trace, sched_label=None, timeout=9.0):
     ev = {"p": c.idx, "cls": cls, "r": summarise(cls, results, tracked), "n": len(results)}
     if cls == "script":
         ev["jm"] = jm_of_results(results)
+    ev["tx"] = tx_of_results(results)
     if sched_label is not None and CLS_OF_LABEL.get(sched_label) != cls:
         ev["unexpected"] = sched_label
     trace.append(ev)
@@ -809,6 +834,11 @@ def run_controlled(scn_dir: str, work: Path, n: int, sched: list, orders: list, 
             if c is None or c.state != "want":
                 diverged += 1
                 continue
+            if c.want["cls"] == "close" and label != "close":
+                # the lifetime of a context is part of the schedule: a worker that has fewer operations than the
+                # model (its page work is over early) stays open - idle - until the schedule closes it
+                diverged += 1
+                continue
             step(kids, c, tracked, trace, label)
             if trace[-1].get("unexpected"):
                 diverged += 1
@@ -863,8 +893,8 @@ def run_free(scn_dir: str, work: Path, n: int, orders: list, cursor: bool, seed:
     # effect lies somewhere in their interval
     ops = []
     for c, f in zip(kids, allfinals):
-        for cls, detail, t0, t1, res, exc in (f or {}).get("log", []):
-            ops.append((t1, t0, c.idx, cls, {"result": res, "exc": exc}))
+        for cls, detail, t0, t1, res, exc, tx in (f or {}).get("log", []):
+            ops.append((t1, t0, c.idx, cls, {"result": res, "exc": exc, "tx": tx}))
     ops.sort(key=lambda x: x[0])
     base = ops[0][1] if ops else 0
     trace: list = []
@@ -885,6 +915,7 @@ def run_free(scn_dir: str, work: Path, n: int, orders: list, cursor: bool, seed:
     for ev in trace:
         if ev["cls"] == "script":
             ev["jm"] = jm_of_results(ev["_rs"])
+        ev["tx"] = tx_of_results(ev["_rs"])
         ev["r"] = summarise(ev["cls"], ev.pop("_rs"), tracked)
     trace.sort(key=lambda e: e["t1"])
     return trace, finals, store
@@ -1068,8 +1099,8 @@ def clean_events(trace, relaxed=False):
     completion time, for write/commit the whole duration; relaxed: the whole duration of
     every operation)."""
     if relaxed:
-        return [{"p": e["p"], "cls": e["cls"], "r": e["r"], "t0": e["w0"], "t1": e["w1"], "jm": e.get("jm", "")} for e in trace]
-    return [{"p": e["p"], "cls": e["cls"], "r": e["r"], "t0": e.get("t0", i), "t1": e.get("t1", i), "jm": e.get("jm", "")}
+        return [{"p": e["p"], "cls": e["cls"], "r": e["r"], "t0": e["w0"], "t1": e["w1"], "jm": e.get("jm", ""), "tx": e.get("tx", "")} for e in trace]
+    return [{"p": e["p"], "cls": e["cls"], "r": e["r"], "t0": e.get("t0", i), "t1": e.get("t1", i), "jm": e.get("jm", ""), "tx": e.get("tx", "")}
             for i, e in enumerate(trace, start=1)]
 
 
@@ -1078,9 +1109,61 @@ def explained_by(verdict) -> bool:
     return bool(verdict) and not [b for b in verdict["bad"] if not (b["raced"] or b["snapfail"])] and (verdict["raced"] or verdict["snapfail"])
 
 
+def jm_obs(verdict) -> list:
+    return [b for b in (verdict or {}).get("obs") or [] if b.get("k", "jm") == "jm"]
+
+
+def tx_obs(verdict) -> list:
+    """Observed Connection.in_transaction values that differ from the model's transaction state (Trace_Workers)."""
+    return [b for b in (verdict or {}).get("obs") or [] if b.get("k") in ("tx", "idle")]
+
+
+def who(p) -> str:
+    return "the creating context (process 0)" if p == 0 else f"worker {p}"
+
+
+def idle_in_txn(events, real) -> list:
+    """Processes whose connection was inside an open transaction (Connection.in_transaction) at the idle point
+    before close_db_conn - page work over, no library call active - although their own page work had not failed
+    (the model: a transaction is left open only by the statement that failed; invariant DoneMeansCommitted)."""
+    out = set()
+    for e in events or []:
+        if e["cls"] == "close" and e.get("tx") == "y":
+            p = e["p"]
+            if p == 0 or (1 <= p <= len(real) and real[p - 1] == "ok"):
+                out.add(p)
+    return sorted(out)
+
+
+IDLE_TXN_RULE = ("model (Workers.NoIdleTransaction): every statement that begins a write transaction - sqlite3 issues BEGIN, the statement takes "
+                 "the write lock of the database also when it ends up changing nothing - is followed by a commit before the library call "
+                 "returns; the lock stays with such a connection until its commit / close_db_conn, i.e. for as long as the idle context "
+                 "lives, and a writer that meets it gives up after the busy timeout with 'database is locked' (Workers.IdleHeld)")
+
+
+def tx_text(verdict, idle: list) -> str:
+    """The transaction-state part of a 'why': idle contexts inside an open transaction (observed), the first
+    mismatching operation performed inside a transaction the model would have ended, other differences."""
+    parts = []
+    if idle:
+        parts.append("; " + ", ".join(who(p) for p in idle) + " had finished the page work without failure and sat idle - no library call active, context "
+                     "still open - INSIDE AN OPEN TRANSACTION (Connection.in_transaction was true at the idle point before close_db_conn); " + IDLE_TXN_RULE)
+    for b in (verdict or {}).get("bad") or []:
+        if b.get("tx") == "y" and b.get("mtx") == "write" and b.get("why") == "operation not expected here" and b.get("expected") == "commit":
+            parts.append(f"; {who(b['p'])} went on with {b['cls']} inside the write transaction of its bootstrap write (in_transaction true after the "
+                         "operation) where the model ends that transaction with the commit" + ("" if idle else "; " + IDLE_TXN_RULE))
+            break
+    extra = [b for b in tx_obs(verdict) if not (b["k"] == "idle" and b["p"] in idle)]
+    if extra:
+        b = extra[0]
+        parts.append(f"; in_transaction of {who(b['p'])} " + ("at the idle point before close_db_conn" if b["k"] == "idle" else "after operation " + str(b["i"]))
+                     + f": {b['seen']}, model: {b['model']}")
+    return "".join(parts)
+
+
 def jm_text(verdict) -> str:
     """The journal-mode observations of the performed trace that differ from the model, as text."""
-    obs = (verdict or {}).get("obs") or []
+    obs = jm_obs(verdict)
     if not obs:
         return ""
     b = obs[0]
@@ -1091,15 +1174,22 @@ def jm_text(verdict) -> str:
             "an open read cursor of one worker blocks the commit of another for the whole busy timeout")
 
 
-def judge(o: Outcome, case: dict, real: list, st_ok: bool, predicted, verdict, drift_only_trace=False):
-    """predicted: {res, store, raced, snapfail} from Gen (or None); verdict: Trace_Workers verdict."""
+def judge(o: Outcome, case: dict, real: list, st_ok: bool, predicted, verdict, drift_only_trace=False, events=None):
+    """predicted: {res, store, raced, snapfail} from Gen (or None); verdict: Trace_Workers verdict;
+    events: the performed operations (with the observed transaction states)."""
     o.evaluations += 1
     drv_exc = case.get("drv_exc")   # the model: closing the creating context never fails
     holds = all(r == "ok" for r in real) and st_ok and not drv_exc
     # conformance items beyond the statement (DRIFT only): the journal mode of the file
     small = {k: case[k] for k in case if k != "performed"}
-    if verdict and verdict.get("obs"):
-        o.note_drift({"case": small, "why": "journal mode of the database file differs from the model" + jm_text(verdict), "obs": verdict["obs"][:3]})
+    if jm_obs(verdict):
+        o.note_drift({"case": small, "why": "journal mode of the database file differs from the model" + jm_text(verdict), "obs": jm_obs(verdict)[:3]})
+    # ... and the transaction state of every connection after every operation / at the idle point (DRIFT by itself:
+    # the statement speaks about failures and results; the consequence - a later writer locked out - is what violates it)
+    idle = idle_in_txn(events if events is not None else case.get("performed"), real)
+    if idle or tx_obs(verdict):
+        o.note_drift({"case": small, "why": "transaction state of a connection differs from the model" + tx_text(verdict, idle),
+                      "idle_in_transaction": idle, "obs": tx_obs(verdict)[:3]})
     jm_model = (predicted or verdict or {}).get("jm")
     if case.get("jm_final") in ("wal", "del", "mixed") and jm_model in ("wal", "del") and case["jm_final"] != jm_model:
         o.note_drift({"case": small, "why": f"journal mode of the database file the run leaves: {case['jm_final']}, model: {jm_model}"})
@@ -1137,14 +1227,14 @@ def judge(o: Outcome, case: dict, real: list, st_ok: bool, predicted, verdict, d
         first = ""
         if verdict and verdict["bad"]:
             b = verdict["bad"][0]
-            who = "the creating context (process 0)" if b["p"] == 0 else f"worker {b['p']}"
+            whom = who(b["p"])
             if b["cls"] == "close" and str(b["r"]).startswith("touch:"):
-                first = (f"; first performed operation that is not a behaviour of the model: close_db_conn of {who} did "
+                first = (f"; first performed operation that is not a behaviour of the model: close_db_conn of {whom} did "
                          f"{str(b['r'])[6:]} on the database files (model: a closing context commits and closes its connection, nothing else)")
             else:
-                first = (f"; first performed operation that is not a behaviour of the model: {b['cls']} of {who} -> {b['r']} "
+                first = (f"; first performed operation that is not a behaviour of the model: {b['cls']} of {whom} -> {b['r']} "
                          f"({b['why']}; model: {b['expected']})")
-        first += jm_text(verdict)
+        first += jm_text(verdict) + tx_text(verdict, idle)
         o.violation(dict(case, model=verdict), why + " (not explained by the as-is model" + first + ")",
                     cls="unexplained" if case.get("kind") != "V-stress" else "unexplained (free-running)")
     return "bad"
@@ -1155,7 +1245,7 @@ def pick(cases: list, budget: int, rng: random.Random) -> list:
     groups: dict = {}
     for c in cases:
         k = (json.dumps(c["scn"], sort_keys=True), tuple(c["res"]), c["store"], c["raced"], c["snapfail"],
-             json.dumps(c.get("life"), sort_keys=True))
+             json.dumps(c.get("life"), sort_keys=True), json.dumps(c.get("idlew")))
         groups.setdefault(k, []).append(c)
     for g in groups.values():
         rng.shuffle(g)
@@ -1176,6 +1266,22 @@ def pick_meet_first(cases: list, budget: int, rng: random.Random) -> list:
     rest = [c for c in cases if not c.get("meet")]
     first = pick(meet, budget, rng)
     return first + pick(rest, budget - len(first), rng)
+
+
+def pick_idle_first(cases: list, budget: int, rng: random.Random) -> list:
+    """For the three-worker bootstrap race with lifetimes (Gen_Workers focus boot3): most of the budget goes to the
+    schedules in which BOTH earlier writers are still open - idle - when the last worker writes (history `idlew` of
+    Gen_Workers: per write, the number of idle earlier writers), half on the database without and half on the one with
+    the bootstrap page; the rest covers the other (scenario, lifetime pattern, meeting) classes."""
+    if budget >= len(cases):
+        return list(cases)
+    full = [c for c in cases if c["idlew"] and c["idlew"][-1] == 2]
+    rest = [c for c in cases if not (c["idlew"] and c["idlew"][-1] == 2)]
+    nfull = (budget * 5) // 7
+    out = []
+    for boot in (False, True):
+        out += pick([c for c in full if bool(c["scn"]["boot"]) == boot], nfull // 2, rng)
+    return out + pick(rest, budget - len(out), rng)
 
 
 TLC_JOB = r"""
@@ -1241,6 +1347,10 @@ def run(tier: str) -> int:
         "J: Gen_Workers_prov(q): the same on databases of other provenance - restored from a backup that backup_db() of an earlier context of the real "
         "library wrote, rollback-journal files - and with a single long-lived reader (worker 1 or 2 keeps the get_all_pages() cursor) beside writers; "
         "classes in which a worker commits while another worker's cursor is open are sampled first; "
+        "T: Gen_Workers_boot3: 3 workers that all look the bootstrap page up before the first of them writes it, every order of the three writes x every "
+        "placement of every close_db_conn (a worker that has written stays open, idle, while the others write - or closes first), on a database without / "
+        "with the bootstrap page; schedules in which the last writer meets two idle earlier writers are sampled first; with every operation the "
+        "worker reports Connection.in_transaction of its connection (for a close: at the idle point before it), compared by TLC with the model's txn; "
         "V: stress runs of 2..16 free workers (tight starts with contexts held open; staggered starts with contexts closing early), distinct by (n, scenario, outcome). Non-trivial = two workers' operations interleave."
     )
     o.assumptions = [
@@ -1249,6 +1359,9 @@ def run(tier: str) -> int:
         "offline Lua: Module:ustring:ustring and Module:libraryUtil are pure-Lua stand-ins stored in the test database",
         "every context ends with close_db_conn; the creating context (scenarios drv) exists only without a backup file",
         "busy timeout of the library's connections left at the sqlite3 default (5 s)",
+        "an idle context (page work over, not yet closed) may stay open longer than any busy timeout; a context inside a library call holds the write "
+        "lock only for a short critical section (LockWait: up to 2 s)",
+        "controlled replays follow the TLC schedule by process choice, but a context is closed only where the schedule closes it (lifetimes are part of the schedule)",
         "journal mode: the model keeps it per database file; a library-made file is WAL, a file may also arrive in rollback-journal mode (prov = rbj: "
         "fixture converted with PRAGMA journal_mode = DELETE); observed through the file header (bytes 18/19) after every start-up script",
     ]
@@ -1257,7 +1370,14 @@ def run(tier: str) -> int:
     rng = random.Random(common.seed() * 31 + 20)
     gens = []
     # TLC runs that need nothing from the real runs go to a helper process (joined in section M)
-    side = [{"name": "Demo_Workers_rollback", "module": "MC_Workers", "cfg": "Demo_Workers_rollback.cfg", "workers": 4}]
+    side = [{"name": "Demo_Workers_rollback", "module": "MC_Workers", "cfg": "Demo_Workers_rollback.cfg", "workers": 4},
+            # transactions: a write that is not committed before the call returns - the idle context keeps the write lock
+            # (TLC: NoIdleTransaction fails), the third worker of the race is locked out (NoFailure fails); with two workers
+            # nothing is observable; a holder without bound on its hold defeats the busy handler (LockWait)
+            {"name": "Demo_Workers_idletxn", "module": "MC_Workers", "cfg": "Demo_Workers_idletxn.cfg", "workers": 4, "expect": "NoIdleTransaction"},
+            {"name": "Demo_Workers_idletxn_locked", "module": "MC_Workers", "cfg": "Demo_Workers_idletxn_locked.cfg", "workers": 4},
+            {"name": "MC_skipped_commit_2_workers_invisible", "module": "MC_Workers", "cfg": "MC_Workers_skip_two.cfg", "workers": 4},
+            {"name": "Demo_LockWait_idle", "module": "LockWait", "cfg": "Demo_LockWait_idle.cfg", "workers": 1, "expect": "NeverLocked"}]
     if thorough:
         side += [{"name": "Demo_Workers_rollback_rbj", "module": "MC_Workers", "cfg": "Demo_Workers_rollback_rbj.cfg", "workers": 4},
                  {"name": "MC_dropsmode_alone_2", "module": "MC_Workers", "cfg": "MC_Workers_dropsmode_alone.cfg", "workers": 4},
@@ -1265,7 +1385,8 @@ def run(tier: str) -> int:
                  {"name": "MC_ideal_3_all_provenances", "module": "MC_Workers", "cfg": "MC_Workers_ideal_T_P.cfg", "workers": 8},
                  {"name": "MC_ideal_3_bootcheck_never_hits_all_provenances", "module": "MC_Workers", "cfg": "MC_Workers_ideal_never_P.cfg", "workers": 8}]
     provcfg = "Gen_Workers_prov.cfg" if thorough else "Gen_Workers_provq.cfg"
-    jobs = {"gen": TlcJob([{"name": provcfg[:-4], "module": "Gen_Workers", "cfg": provcfg, "workers": 1}])}
+    jobs = {"gen": TlcJob([{"name": provcfg[:-4], "module": "Gen_Workers", "cfg": provcfg, "workers": 1},
+                           {"name": "Gen_Workers_boot3", "module": "Gen_Workers", "cfg": "Gen_Workers_boot3.cfg", "workers": 1}])}
     try:
         return _run(o, thorough, rng, gens, side, provcfg, jobs)
     finally:
@@ -1275,6 +1396,8 @@ def run(tier: str) -> int:
 
 def _run(o, thorough, rng, gens, side, provcfg, jobs):
     t_last = [time.monotonic()]
+
+    n_regular = 0
 
     def phase(name):
         now = time.monotonic()
@@ -1298,7 +1421,8 @@ def _run(o, thorough, rng, gens, side, provcfg, jobs):
     o.extra["generated_schedules"]["Sim_Workers(3 workers)"] = len(sim)
     gens += sim
     del r
-    r = jobs.pop("gen").results()[provcfg[:-4]]
+    gres = jobs.pop("gen").results()
+    r = gres[provcfg[:-4]]
     if not r.ok:
         raise common.TLCError("TLC did not complete cleanly on Gen_Workers/" + provcfg + "\n" + r.out[-1500:])
     o.add_tlc(provcfg[:-4], r)
@@ -1307,6 +1431,19 @@ def _run(o, thorough, rng, gens, side, provcfg, jobs):
     o.extra["generated_schedules"][provcfg[:-4] + ": commit meets a foreign open cursor"] = sum(1 for c in cases if c["meet"])
     gens += pick_meet_first(cases, 9999 if thorough else 26, random.Random(common.seed() * 37 + 5))
     del cases, r
+    # T: three workers race for the bootstrap write (all look the page up before the first write) x lifetimes:
+    # every order of the writes, every placement of every close (a worker that has written stays open - idle - or not)
+    r = gres["Gen_Workers_boot3"]
+    if not r.ok:
+        raise common.TLCError("TLC did not complete cleanly on Gen_Workers/Gen_Workers_boot3.cfg\n" + r.out[-1500:])
+    o.add_tlc("Gen_Workers_boot3", r)
+    cases = r.cases
+    o.extra["generated_schedules"]["Gen_Workers_boot3(3 workers)"] = len(cases)
+    o.extra["generated_schedules"]["Gen_Workers_boot3: last write meets two idle writers"] = sum(1 for c in cases if c["idlew"] and c["idlew"][-1] == 2)
+    n_regular = len(gens)
+    gens += pick_idle_first(cases, 9999 if thorough else 28, random.Random(common.seed() * 41 + 9))
+    o.extra["replayed_boot3"] = len(gens) - n_regular
+    del cases, r, gres
     jobs["side"] = TlcJob(side)
     phase("generate schedules (TLC)")
     common.use_repo()
@@ -1325,7 +1462,10 @@ def _run(o, thorough, rng, gens, side, provcfg, jobs):
             if ref[k]["jm"] != "wal":
                 o.note_drift({"why": "a single context that opened the scenario files left the database in another journal mode than WAL "
                               "(model: every open (re-)establishes WAL)", "scenario": list(k), "journal_mode": ref[k]["jm"]})
-        replays = pmap(replay_chunk, list(enumerate(gens)), nproc=8)
+        todo = list(enumerate(gens))
+        # the boot3 family in small chunks of its own: on a tree that leaves a transaction open each of these replays
+        # sits out one real busy timeout (5 s)
+        replays = pmap(replay_chunk, todo[:n_regular], nproc=8) + pmap(replay_chunk, todo[n_regular:], nproc=8, chunk=2)
         phase("schedule replays")
         # stress: 2..16 free-running workers
         nstress = 200 if thorough else 10
@@ -1395,8 +1535,9 @@ def _run(o, thorough, rng, gens, side, provcfg, jobs):
         o.add_tlc(name, d)
         if name.startswith("Demo_"):
             o.extra["demo_counterexample_found"][name] = bool(d.invariant_violated)
-            if "NoFailure" not in d.invariant_violated:
-                raise common.TLCError(f"{name} no longer shows the counterexample (vacuity guard)")
+            want = next((sp.get("expect", "NoFailure") for sp in side if sp["name"] == name), "NoFailure")
+            if want not in d.invariant_violated:
+                raise common.TLCError(f"{name} no longer shows the counterexample (vacuity guard: {want})")
         elif not d.ok:
             raise common.TLCError(f"TLC did not complete cleanly on {name}\n" + d.out[-1500:])
     d = tlc("MC_Workers", "Demo_Workers_restorerace.cfg", workers=4, check=False, coverage=True, extra=["-continue"])
@@ -1459,7 +1600,7 @@ def _run(o, thorough, rng, gens, side, provcfg, jobs):
         cj = {"kind": "V-stress", "scn": st["scn"], "workers": st["n"], "seed_id": st["sid"], "life": st["life"], "store": st["store"],
               "excs": st["excs"], "drv_exc": st["drv_exc"], "jm_final": st["jm_final"], "real": st["real"]}
         # free-running: the linearisation is approximate; use it only to explain failures
-        res = judge(o, cj, st["real"], st["store_ok"], None, v)
+        res = judge(o, cj, st["real"], st["store_ok"], None, v, events=clean_events(st["trace"]))
         stats["stress_" + res] += 1
         if v["bad"] and res == "ok":
             o.note_drift({"why": "linearised stress trace is not a behaviour of the model (approximate linearisation)", "n": st["n"], "first": v["bad"][:2]})
